@@ -382,6 +382,16 @@ class AsmCFG(DiGraph):
     def del_block(self, block):
         super(AsmCFG, self).del_node(block.loc_key)
         del self._loc_key_to_block[block.loc_key]
+        # The deleted block no longer waits for its missing destinations
+        for loc_key, pendings in list(viewitems(self._pendings)):
+            pendings = set(
+                pending for pending in pendings
+                if pending.waiter.loc_key != block.loc_key
+            )
+            if pendings:
+                self._pendings[loc_key] = pendings
+            else:
+                del self._pendings[loc_key]
 
 
     def add_node(self, node):
